@@ -15,6 +15,22 @@ A history is a JSON list of ops:
   ['get', i, name] ['set', i, name, v] ['append', i, name, v] ['call', i, name, k] ['sig', i, name]
 Values: -1 None, 0..999 ints, 1000+j instance j.
 
+Composite ops: ONE call of the public API whose meaning is a SEQUENCE of the primitive ops above (the model only has
+the primitive ones); `Tracker.expand` gives the sequence, `model_ask` runs it on the model and folds the records of
+the sequence into one, so that the comparison points are the same as on the implementation (after the call):
+  ['clearsupers', c, via]        via 'clear' c.eSuperTypes.clear() | 'delslice' del c.eSuperTypes[:] |
+                                 'delattr' del c.eSuperTypes | 'assign' c.eSuperTypes = []      = rmsuper for each
+  ['popsuper', c, idx, via]      via 'pop' c.eSuperTypes.pop(idx) (pop() when idx == -1) | 'delitem' del c.eSuperTypes[idx]
+  ['setsupers', c, [s...]]       c.eSuperTypes = [s...]                                         = rmsuper each, addsuper each
+  ['replsuper', c, s]            c.eSuperTypes[-1] = s                                          = rmsuper last, addsuper s
+  ['clearfeats', c, via] ['clearops', c, via]   via as for clearsupers (default 'clear')
+  ['popfeat', c, idx, via] ['popop', c, idx, via]                                               = rmfeat / rmop of that one
+  ['editop', c, name, edits]     edits the eParameters of the EOperation object last known as `name` of class c (declared
+                                 there, or removed from there) IN PLACE: ['append', p] ['insert', i, p] ['remove', i]
+                                 ['flip', i] (required flag) ['move', i, j]; no model op (the model's operations are values)
+  ['redecl', dst, src, name, via]  dst.eOperations.append/extend/insert(0, ..) of THAT SAME object (a move when it is still
+                                 declared in src)                                               = [rmop src] addop dst <current params>
+
 Run as a script (`python -P harness/metaedit_io.py`) it is the isolated worker:
 reads one JSON request from stdin, prints one JSON answer."""
 import inspect
@@ -82,6 +98,182 @@ def enc_op(op, intern):
     if k in ('set', 'append', 'call'):
         return [c, op[1], op[3]] + enc_name(op[2])
     raise AssertionError(op)
+
+
+COMPOSITE = ('clearsupers', 'popsuper', 'setsupers', 'replsuper', 'popfeat', 'popop', 'editop', 'redecl')
+NOBODY = 'zz_nobody'      # a name no class declares
+
+
+def apply_param_edits(params, edits):
+    ps = [list(p) for p in params]
+    for e in edits:
+        if e[0] == 'append':
+            ps.append(list(e[1]))
+        elif e[0] == 'insert':
+            ps.insert(e[1], list(e[2]))
+        elif e[0] == 'remove':
+            del ps[e[1]]
+        elif e[0] == 'flip':
+            ps[e[1]][1] = 0 if ps[e[1]][1] else 1
+        elif e[0] == 'move':
+            ps.insert(e[2], ps.pop(e[1]))
+        else:
+            raise AssertionError(e)
+    return ps
+
+
+class Tracker:
+    """The declared lists of a history (super types, feature names, operations with their current parameters,
+    operations taken out of a class), as far as needed to say which primitive ops a composite op stands for."""
+
+    def __init__(self):
+        self.supers, self.feats, self.ops, self.dead = {}, {}, {}, {}
+
+    def find_op(self, c, name):
+        """-> ('live'|'dead'|None, params)"""
+        for n, ps in self.ops.get(c, []):
+            if n == name:
+                return 'live', ps
+        if (c, name) in self.dead:
+            return 'dead', self.dead[(c, name)]
+        return None, []
+
+    def _rmop(self, c, name):
+        for j, (n, ps) in enumerate(self.ops[c]):
+            if n == name:
+                self.dead[(c, name)] = ps
+                del self.ops[c][j]
+                return
+
+    def expand(self, op):
+        k = op[0]
+        if k == 'newclass':
+            c = len(self.supers) + 1
+            self.supers[c], self.feats[c], self.ops[c] = list(dict.fromkeys(op[1])), [], []
+        elif k == 'addsuper':
+            if op[2] not in self.supers[op[1]]:
+                self.supers[op[1]].append(op[2])
+        elif k == 'rmsuper':
+            if op[2] in self.supers[op[1]]:
+                self.supers[op[1]].remove(op[2])
+        elif k == 'clearsupers':
+            c = op[1]
+            old, self.supers[c] = self.supers[c], []
+            return [['rmsuper', c, s] for s in old]
+        elif k == 'popsuper':
+            c, idx = op[1], op[2]
+            ss = self.supers[c]
+            if not -len(ss) <= idx < len(ss):
+                return [['rmsuper', c, c]]          # nothing to remove: KeyError / IndexError
+            return [['rmsuper', c, ss.pop(idx)]]
+        elif k == 'setsupers':
+            c, new = op[1], list(dict.fromkeys(op[2]))
+            old, self.supers[c] = self.supers[c], new
+            return [['rmsuper', c, s] for s in old] + [['addsuper', c, s] for s in new]
+        elif k == 'replsuper':
+            c, s = op[1], op[2]
+            ss = self.supers[c]
+            if not ss:
+                return [['rmsuper', c, c]]
+            last = ss.pop()
+            if s not in ss:
+                ss.append(s)
+            return [['rmsuper', c, last], ['addsuper', c, s]]
+        elif k == 'addfeat':
+            self.feats[op[1]].append(op[2])
+        elif k == 'rmfeat':
+            if op[2] in self.feats[op[1]]:
+                self.feats[op[1]].remove(op[2])
+        elif k == 'clearfeats':
+            self.feats[op[1]] = []
+        elif k == 'popfeat':
+            c, idx = op[1], op[2]
+            fs = self.feats[c]
+            if not -len(fs) <= idx < len(fs):
+                return [['rmfeat', c, NOBODY]]
+            return [['rmfeat', c, fs.pop(idx)]]
+        elif k == 'addop':
+            self.ops[op[1]].append((op[2], [list(p) for p in op[3]]))
+        elif k == 'rmop':
+            self._rmop(op[1], op[2])
+        elif k == 'clearops':
+            for n, _ in list(self.ops[op[1]]):
+                self._rmop(op[1], n)
+        elif k == 'popop':
+            c, idx = op[1], op[2]
+            os_ = self.ops[c]
+            if not -len(os_) <= idx < len(os_):
+                return [['rmop', c, NOBODY]]
+            n = os_[idx][0]
+            self.dead[(c, n)] = os_.pop(idx)[1]
+            return [['rmop', c, n]]
+        elif k == 'editop':
+            c, name, edits = op[1], op[2], op[3]
+            where, ps = self.find_op(c, name)
+            ps2 = apply_param_edits(ps, edits)
+            if where == 'live':
+                self.ops[c] = [(n, ps2 if n == name else q) for n, q in self.ops[c]]
+            else:
+                self.dead[(c, name)] = ps2
+            return []
+        elif k == 'redecl':
+            dst, src, name = op[1], op[2], op[3]
+            where, ps = self.find_op(src, name)
+            out = []
+            if where == 'live':
+                out.append(['rmop', src, name])
+                if src != dst:      # added again where it already is, the object keeps its place in the ordered set
+                    self.ops[src] = [(n, q) for n, q in self.ops[src] if n != name]
+                    self.ops[dst].append((name, [list(p) for p in ps]))
+            else:
+                self.dead.pop((src, name), None)
+                self.ops[dst].append((name, [list(p) for p in ps]))
+            return out + [['addop', dst, name, [list(p) for p in ps], 'append']]
+        return [op]
+
+
+def expand(history):
+    """-> (history of primitive ops, [number of primitive ops each op stands for])"""
+    t = Tracker()
+    prims, groups = [], []
+    for op in history:
+        e = t.expand(op)
+        prims += e
+        groups.append(len(e))
+    return prims, groups
+
+
+def fold_records(tokens, groups):
+    """One record per original op: the first failing record of its group, else the last one ([0, 0] for an op
+    that stands for no model op); the final dump follows unchanged."""
+    out, i = [], 0
+    for g in groups:
+        chosen = [0, 0]
+        done = False
+        for _ in range(g):
+            if i + 1 >= len(tokens):
+                rec, i = tokens[i:], len(tokens)
+            else:
+                n = tokens[i + 1]
+                rec = tokens[i:i + 2 + n]
+                i += 2 + n
+            if not done:
+                chosen = rec
+                done = bool(rec) and rec[0] != 0
+        out += chosen
+    return out + tokens[i:]
+
+
+def has_composite(history):
+    return any(op[0] in COMPOSITE for op in history)
+
+
+def model_ask(model, history, names, init_flag, intern):
+    """The model's answer for `history`, with one record per op of `history` (composite ops folded)."""
+    if not has_composite(history):
+        return model.ask('metaedit', model_tokens(history, names, init_flag, intern))
+    prims, groups = expand(history)
+    return fold_records(model.ask('metaedit', model_tokens(prims, names, init_flag, intern)), groups)
 
 
 def model_tokens(history, names, init_flag, intern):
@@ -191,6 +383,40 @@ class Impl:
                 out += [1, self.intern.tok(repr(p.default))]
         return out
 
+    # ----- the spellings of the bulk calls -----
+    @staticmethod
+    def bulk_clear(owner, fname, via):
+        if via == 'delslice':
+            del getattr(owner, fname)[:]
+        elif via == 'delattr':
+            delattr(owner, fname)
+        elif via == 'assign':
+            setattr(owner, fname, [])
+        else:
+            getattr(owner, fname).clear()
+
+    @staticmethod
+    def pop_at(coll, idx, via):
+        if via == 'delitem':
+            del coll[idx]
+        elif idx == -1:
+            coll.pop()
+        else:
+            coll.pop(idx)
+
+    def new_param(self, p):
+        pn, rq, tk = p
+        return self.ec.EParameter(pn, self.ptype(tk), required=bool(rq))
+
+    def known_op(self, c, name):
+        o = next((x for x in self.ops[c] if x.name == name), None)
+        if o is not None:
+            return 'live', o
+        o = self.dead_ops.get((c, name))
+        if o is not None:
+            return 'dead', o
+        return None, self.ec.EOperation(name)
+
     # ----- one op -----
     def do(self, op):
         """-> (code, payload)"""
@@ -223,6 +449,18 @@ class Impl:
             if k == 'rmsuper':
                 self.classes[op[1]].eSuperTypes.remove(self.classes[op[2]])
                 return 0, []
+            if k == 'clearsupers':
+                self.bulk_clear(self.classes[op[1]], 'eSuperTypes', op[2] if len(op) > 2 else 'clear')
+                return 0, []
+            if k == 'popsuper':
+                self.pop_at(self.classes[op[1]].eSuperTypes, op[2], op[3] if len(op) > 3 else 'pop')
+                return 0, []
+            if k == 'setsupers':
+                self.classes[op[1]].eSuperTypes = [self.classes[s] for s in op[2]]
+                return 0, []
+            if k == 'replsuper':
+                self.classes[op[1]].eSuperTypes[-1] = self.classes[op[2]]
+                return 0, []
             if k == 'addfeat':
                 _, c, name, ftype, many, default, via = op
                 if ftype == 0:
@@ -249,7 +487,14 @@ class Impl:
                 for f in self.feats[c]:
                     self.dead_feats[(c, f.name)] = f
                 self.feats[c] = []
-                self.classes[c].eStructuralFeatures.clear()
+                self.bulk_clear(self.classes[c], 'eStructuralFeatures', op[2] if len(op) > 2 else 'clear')
+                return 0, []
+            if k == 'popfeat':
+                c, idx = op[1], op[2]
+                if -len(self.feats[c]) <= idx < len(self.feats[c]):
+                    f = self.feats[c].pop(idx)
+                    self.dead_feats[(c, f.name)] = f
+                self.pop_at(self.classes[c].eStructuralFeatures, idx, op[3] if len(op) > 3 else 'pop')
                 return 0, []
             if k == 'addop':
                 _, c, name, params, via = op
@@ -274,7 +519,52 @@ class Impl:
                 for o in self.ops[c]:
                     self.dead_ops[(c, o.name)] = o
                 self.ops[c] = []
-                self.classes[c].eOperations.clear()
+                self.bulk_clear(self.classes[c], 'eOperations', op[2] if len(op) > 2 else 'clear')
+                return 0, []
+            if k == 'popop':
+                c, idx = op[1], op[2]
+                if -len(self.ops[c]) <= idx < len(self.ops[c]):
+                    o = self.ops[c].pop(idx)
+                    self.dead_ops[(c, o.name)] = o
+                self.pop_at(self.classes[c].eOperations, idx, op[3] if len(op) > 3 else 'pop')
+                return 0, []
+            if k == 'editop':
+                _, c, name, edits = op
+                o = self.known_op(c, name)[1]
+                ps = o.eParameters
+                for e in edits:
+                    if e[0] == 'append':
+                        ps.append(self.new_param(e[1]))
+                    elif e[0] == 'insert':
+                        ps.insert(e[1], self.new_param(e[2]))
+                    elif e[0] == 'remove':
+                        ps.remove(ps[e[1]])
+                    elif e[0] == 'flip':
+                        ps[e[1]].required = not ps[e[1]].required
+                    elif e[0] == 'move':
+                        x = ps.pop(e[1])
+                        ps.insert(e[2], x)
+                    else:
+                        raise AssertionError(e)
+                return 0, []
+            if k == 'redecl':
+                _, dst, src, name, via = op
+                where, o = self.known_op(src, name)
+                if where == 'live' and src != dst:
+                    self.ops[src].remove(o)
+                elif where == 'dead':
+                    del self.dead_ops[(src, name)]
+                if not (where == 'live' and src == dst):
+                    self.ops[dst].append(o)
+                coll = self.classes[dst].eOperations
+                if via == 'extend':
+                    coll.extend([o])
+                elif via == 'insert':
+                    coll.insert(0, o)
+                elif via == 'iadd':
+                    coll += [o]
+                else:
+                    coll.append(o)
                 return 0, []
             if k == 'attach':
                 _, c, fname, b = op
